@@ -1,12 +1,183 @@
 /-
-  UnytModel.Ops.C19 — opcodes of the C19 model (prefix `c19.`).
+  UnytModel.Ops.C19 — opcodes of the C19 model (prefix `c19.`), executing `UnytModel/Testing.lean`
+  at `Float`.
+
+  Wire formats (fields of a line are tab-separated; inside a field):
+    argument   `B~<0|1 scalar>~<bits bits …>`                       bare number(s)
+               `Q~<0|1 scalar>~<bits …>~<scale>~<offset>~<dim>`     unyt_array / unyt_quantity
+               `L~<bits;scale;offset;dim>|<…>`                      list of quantities
+    tolerance  `b~<bits>`  |  `q~<bits>~<scale>~<offset>~<dim>`
+    value seen by a decorator: `none` (no units) or a dimension string
 -/
 import UnytModel.DriverBase
+import UnytModel.Testing
 
 namespace Unyt
+open Unyt.Testing
 
-def opsC19 : Handler := fun _st fields =>
+namespace C19Wire
+
+def parseVals (s : String) : Option (List Float) :=
+  if s == "" then some [] else (s.splitOn " ").mapM fb
+
+def parseTUnit (sc off dim : String) : Option (TUnit Float) := do
+  let s ← fb sc
+  let o ← fb off
+  let d ← Dim.parse dim
+  some ⟨s, o, d⟩
+
+def parseArg (s : String) : Option (ArgIn Float) :=
+  match s.splitOn "~" with
+  | ["B", sc, vals] => do
+    let b ← parseBool sc
+    let v ← parseVals vals
+    some (.bare v b)
+  | ["Q", sc, vals, scale, off, dim] => do
+    let b ← parseBool sc
+    let v ← parseVals vals
+    let u ← parseTUnit scale off dim
+    some (.qty ⟨v, b, u⟩)
+  | ["L", items] =>
+    if items == "" then some (.qlist []) else do
+      let its ← (items.splitOn "|").mapM fun it =>
+        match it.splitOn ";" with
+        | [v, scale, off, dim] => do
+          let x ← fb v
+          let u ← parseTUnit scale off dim
+          some (x, u)
+        | _ => none
+      some (.qlist its)
+  | _ => none
+
+def parseTol (s : String) : Option (Tol Float) :=
+  match s.splitOn "~" with
+  | ["b", v] => (fb v).map .bare
+  | ["q", v, scale, off, dim] => do
+    let x ← fb v
+    let u ← parseTUnit scale off dim
+    some (.qty x u)
+  | _ => none
+
+def boolStr (b : Bool) : String := if b then "1" else "0"
+
+def verdictOut : Except Err Bool → String
+  | .ok b => s!"ok\t{boolStr b}"
+  | .error e => s!"err\t{e.str}"
+
+def assertOut : AssertOutcome → String
+  | .pass => "pass"
+  | .assertionError => "AssertionError"
+  | .raised e => s!"err\t{e.str}"
+
+def aeuOut : AEUOutcome → String
+  | .pass => "pass"
+  | .valuesDiffer => "valuesDiffer"
+  | .unitsDiffer => "unitsDiffer"
+  | .refused => "refused"
+
+/-- `none` or a dimension string -/
+def parseOptDim (s : String) : Option (Option Dim) :=
+  if s == "none" then some none else (Dim.parse s).map some
+
+def mkVal (i : Nat) (d : Option Dim) : PyVal := ⟨i, d.map fun d => ⟨1, 0, d⟩⟩
+
+def parseNamedDims (s : String) : Option (List (String × Dim)) :=
+  if s == "" then some [] else (s.splitOn ";").mapM fun it =>
+    match it.splitOn "=" with
+    | [n, d] => (Dim.parse d).map fun d => (n, d)
+    | _ => none
+
+def parseNamedVals (s : String) (start : Nat) : Option (List (String × PyVal)) :=
+  if s == "" then some [] else do
+    let xs ← (s.splitOn ";").mapM fun it =>
+      match it.splitOn "=" with
+      | [n, d] => (parseOptDim d).map fun d => (n, d)
+      | _ => none
+    some (xs.zipIdx.map fun (p, i) => (p.1, mkVal (start + i) p.2))
+
+def parseValList (s : String) : Option (List PyVal) :=
+  if s == "" then some [] else do
+    let xs ← (s.splitOn ";").mapM parseOptDim
+    some (xs.zipIdx.map fun (d, i) => mkVal i d)
+
+def parseDimList (s : String) : Option (List Dim) :=
+  if s == "" then some [] else (s.splitOn ";").mapM Dim.parse
+
+end C19Wire
+
+open C19Wire in
+def opsC19 : Handler := fun st fields =>
   match fields with
+  | ["c19.flag"] => some (st, s!"ok\t{boolStr Generated.bareAtolInDesiredUnit}")
+  | ["c19.allclose_units", a, d, r, t] =>
+    match parseArg a, parseArg d, parseTol r, parseTol t with
+    | some a, some d, some r, some t => some (st, verdictOut (allcloseUnits a d r t))
+    | _, _, _, _ => some (st, "bad-args")
+  | ["c19.allclose_units_with", f, a, d, r, t] =>
+    match parseBool f, parseArg a, parseArg d, parseTol r, parseTol t with
+    | some f, some a, some d, some r, some t => some (st, verdictOut (allcloseUnitsWith f a d r t))
+    | _, _, _, _, _ => some (st, "bad-args")
+  | ["c19.assert_allclose_units", a, d, r, t] =>
+    match parseArg a, parseArg d, parseTol r, parseTol t with
+    | some a, some d, some r, some t => some (st, assertOut (assertAllcloseUnits a d r t))
+    | _, _, _, _ => some (st, "bad-args")
+  | ["c19.isclose", a, b, rt, atl] =>
+    match parseArg a, parseArg b, fb rt, fb atl with
+    | some a, some b, some rt, some atl =>
+      match iscloseHandler a b rt atl with
+      | .ok bs => some (st, "ok\t" ++ String.join (bs.map boolStr))
+      | .error e => some (st, s!"err\t{e.str}")
+    | _, _, _, _ => some (st, "bad-args")
+  | ["c19.allclose", a, b, rt, atl] =>
+    match parseArg a, parseArg b, fb rt, fb atl with
+    | some a, some b, some rt, some atl => some (st, verdictOut (allcloseHandler a b rt atl))
+    | _, _, _, _ => some (st, "bad-args")
+  | ["c19.array_equal", a, b] =>
+    match parseArg a, parseArg b with
+    | some a, some b => some (st, s!"ok\t{boolStr (arrayEqualHandler a b)}")
+    | _, _ => some (st, "bad-args")
+  | ["c19.array_equiv", a, b] =>
+    match parseArg a, parseArg b with
+    | some a, some b => some (st, s!"ok\t{boolStr (arrayEquivHandler a b)}")
+    | _, _ => some (st, "bad-args")
+  | ["c19.assert_array_equal_units", a, b] =>
+    match parseArg a, parseArg b with
+    | some a, some b => some (st, aeuOut (assertArrayEqualUnits a b))
+    | _, _ => some (st, "bad-args")
+  | ["c19.hasdim", q, d] =>
+    match parseOptDim q, Dim.parse d with
+    | some q, some d => some (st, s!"ok\t{boolStr (hasDimensions q d)}")
+    | _, _ => some (st, "bad-args")
+  | ["c19.accepts", au, vn, pos, kw] =>
+    match parseNamedDims au, parseValList pos with
+    | some au, some pos =>
+      match parseNamedVals kw pos.length with
+      | some kw =>
+        let varnames := if vn == "" then [] else vn.splitOn ","
+        let r := accepts au varnames (fun _ => (.ok () : Except Err Unit)) ⟨pos, kw⟩
+        let o := match r.out with | .ok _ => "through" | .error e => e.str
+        some (st, s!"called\t{boolStr r.called}\t{o}")
+      | none => some (st, "bad-args")
+    | _, _ => some (st, "bad-args")
+  | ["c19.returns", ds, ru, kind, vals] =>
+    match parseDimList ds, (if ru == "-" then some none else (Dim.parse ru).map some), parseValList vals with
+    | some ds, some ru, some vals =>
+      match returnsDims ds ru with
+      | .error e => some (st, s!"decorate-err\t{e.str}")
+      | .ok dims =>
+        let res : Option PyResult :=
+          if kind == "S" then (match vals with | [v] => some (.single v) | _ => none)
+          else if kind == "T" then some (.tuple vals) else none
+        match res with
+        | none => some (st, "bad-args")
+        | some res =>
+          let r := returns dims (fun _ => .ok res) ⟨[], []⟩
+          match r.out with
+          | .ok r' =>
+            -- the ids show that the very same objects come back
+            some (st, s!"ok\t{boolStr r.called}\t" ++ ";".intercalate (r'.asTuple.map fun v => toString v.id))
+          | .error e => some (st, s!"err\t{boolStr r.called}\t{e.str}")
+    | _, _, _ => some (st, "bad-args")
   | _ => none
 
 end Unyt
